@@ -28,11 +28,58 @@ EXPL = {'indent': (2, 8), 'width': (79, 20), 'ribbon_width': (71, 10), 'depth': 
 ALLKEYS = ('indent',) + KEYS
 
 
+import abc
+
+
+class Shape(abc.ABC):
+    """A printer is registered for this ABC; VirtualSquare belongs to it only through register()."""
+
+
+class VirtualSquare:
+    def __init__(self, side):
+        self.side = side
+
+    def __eq__(self, other):
+        return type(other) is VirtualSquare and other.side == self.side
+
+    def __hash__(self):
+        return 3
+
+
+Shape.register(VirtualSquare)
+
+
+class ListStream(list):
+    """A capture buffer that is falsy while it is empty."""
+
+    def write(self, s):
+        self.append(s)
+
+    def getvalue(self):
+        return ''.join(self)
+
+
+_shape_reg = []
+
+
+def ensure_shape_printer():
+    if _shape_reg:
+        return
+    from prettyprinter import register_pretty, pretty_call, pretty_repr
+
+    @register_pretty(Shape)
+    def pretty_shape(v, ctx):
+        return pretty_call(ctx, type(v), v.side)
+    VirtualSquare.__repr__ = pretty_repr
+    _shape_reg.append(1)
+
+
 def probes():
     return [
         {'b': [1, 2, 3, [4, 5]], 'a': 'x' * 12},
         [list(range(8)), {'z': 1, 'y': (2, 3)}, 'word ' * 6],
         Call([1, 2, 3], kw={'k': [7, 8, 9]}),
+        VirtualSquare([1, [2, 3], 'side ' * 5]),
     ]
 
 
@@ -111,8 +158,26 @@ def observe_state(history, part, table):
                 pp.PrettyPrinter(stream=s, **kw).pprint(v)
                 out = s.getvalue()
                 expect('PrettyPrinter.pprint', out[:-1] if out.endswith('\n') else out + '<no newline>')
-                if not kw and isinstance(v, Call):
-                    expect('pretty_repr', pp.pretty_repr(v))
+                if not kw and isinstance(v, (Call, VirtualSquare)):
+                    import warnings as _w
+                    with _w.catch_warnings(record=True) as ws:
+                        _w.simplefilter('always')
+                        text = pp.pretty_repr(v)
+                    if ws:
+                        part.violation('pretty_repr-warns-for-a-registered-type', dict(case, entry='pretty_repr'), str(ws[0].message)[:160])
+                    expect('pretty_repr', text)
+                    if isinstance(v, VirtualSquare):
+                        expect('repr() through __repr__ = pretty_repr', repr(v))
+                # a stream that is falsy while empty is still the given stream
+                for entry, call in (('pprint', lambda st: pp.pprint(v, stream=st, end='', **kw)),
+                                    ('cpprint', lambda st: pp.cpprint(v, stream=st, end='', **kw)),
+                                    ('PrettyPrinter.pprint', lambda st: pp.PrettyPrinter(stream=st, **kw).pprint(v))):
+                    if vi != 1:
+                        break
+                    st = ListStream()
+                    call(st)
+                    out = st.getvalue()
+                    expect(entry + ' to a falsy-when-empty stream', out[:-1] if entry == 'PrettyPrinter.pprint' and out.endswith('\n') else out)
             except Exception as e:     # noqa
                 part.n += 1
                 part.violation('exception', case, '%s: %s' % (type(e).__name__, e))
@@ -121,6 +186,7 @@ def observe_state(history, part, table):
 
 def work_state(item):
     fixtures.register()
+    ensure_shape_printer()
     part = core.Part()
     table = {}
     for history in item:
@@ -132,6 +198,7 @@ def work_state(item):
 
 def run(tier, seed):
     fixtures.register()
+    ensure_shape_printer()
     res = core.Result(PROPERTY, LEVEL, tier, seed)
     pp = pristine_module()
     # --- BFS over default-config states: every transition executed on the real module
@@ -228,6 +295,7 @@ def run(tier, seed):
 
 def replay(case):
     fixtures.register()
+    ensure_shape_printer()
     part = core.Part()
     if 'op' in case:
         pp, model = replay_to(case['history'])
